@@ -311,11 +311,41 @@ pub fn run(fam: &Family, prop: &str, tier: &str, nw: u64) -> i32 {
     let mut shapes: BTreeSet<u64> = BTreeSet::new();
     let mut inter: BTreeSet<u64> = BTreeSet::new();
     let mut nontrivial: BTreeSet<u64> = BTreeSet::new();
-    while let Some((wi, gen, mut ch)) = children.pop() {
+    // watchdog: a worker whose case marker does not change for this long is stuck inside the
+    // code under test (an endless loop no budget sees): it is killed and the case reported
+    let stall_limit = std::time::Duration::from_secs(
+        std::env::var("VERIF_STALL_SECS").ok().and_then(|s| s.parse().ok()).unwrap_or(240),
+    );
+    let mut last_seen: BTreeMap<u64, (String, Instant)> = BTreeMap::new();
+    let mut hung: BTreeSet<u64> = BTreeSet::new();
+    while !children.is_empty() {
+        let mut finished: Option<usize> = None;
+        for (ix, (wi, _gen, ch)) in children.iter_mut().enumerate() {
+            if ch.try_wait().expect("wait").is_some() {
+                finished = Some(ix);
+                break;
+            }
+            let cur = std::fs::read_to_string(outdir.join(format!("w{wi}.cur"))).unwrap_or_default();
+            let e = last_seen.entry(*wi).or_insert_with(|| (cur.clone(), Instant::now()));
+            if e.0 != cur {
+                *e = (cur, Instant::now());
+            } else if e.1.elapsed() > stall_limit && !e.0.is_empty() {
+                let _ = ch.kill();
+                hung.insert(*wi);
+                *e = (String::new(), Instant::now());
+            }
+        }
+        let Some(ix) = finished else {
+            std::thread::sleep(std::time::Duration::from_millis(50));
+            continue;
+        };
+        let (wi, gen, mut ch) = children.swap_remove(ix);
         let status = ch.wait().expect("wait");
+        last_seen.remove(&wi);
         if status.success() {
             continue;
         }
+        let was_hung = hung.remove(&wi);
         // the worker died: the case it was working on killed the process (abort, signal)
         let cur = std::fs::read_to_string(outdir.join(format!("w{wi}.cur"))).unwrap_or_default();
         let mut it = cur.split_whitespace();
@@ -341,8 +371,12 @@ pub fn run(fam: &Family, prop: &str, tier: &str, nw: u64) -> i32 {
                     batch: b.clone(),
                     case,
                     run_seed: rs,
-                    class: "process-abort".into(),
-                    message: format!("the process died while running this case ({status}): {tail}"),
+                    class: if was_hung { "hang".into() } else { "process-abort".into() },
+                    message: if was_hung {
+                        format!("the case did not finish within {}s of wall-clock time (no budget was hit: the time is spent outside the VM and outside parallel regions)", stall_limit.as_secs())
+                    } else {
+                        format!("the process died while running this case ({status}): {tail}")
+                    },
                     payload: json!({"Case": {"prop": prop, "batch": b, "run_seed": rs, "case": case}}),
                 });
                 *merged.counters.entry("finding[process-abort]".into()).or_default() += 1;
@@ -416,7 +450,7 @@ pub fn run(fam: &Family, prop: &str, tier: &str, nw: u64) -> i32 {
             continue;
         }
         // minimise (not possible for a case that kills the process)
-        let (payload, min_info) = if v.class == "process-abort" {
+        let (payload, min_info) = if v.class == "process-abort" || v.class == "hang" {
             (v.payload.clone(), json!({"minimised": false, "why": "the case kills the process"}))
         } else {
             (fam.shrink)(&v.payload, &v.class)
@@ -560,28 +594,56 @@ pub fn replay_file(fam: &Family, path: &str) -> i32 {
         }
     };
     let want = doc["class"].as_str().unwrap_or("").to_string();
-    if want == "process-abort" {
-        // re-run the case in a child process and see whether it dies again
+    if want == "process-abort" || want == "hang" {
+        // re-run the case in a child process and see whether it dies (or hangs) again
         let exe = std::env::current_exe().expect("own path");
-        let st = Command::new(&exe)
+        let child = Command::new(&exe)
             .args(["case", doc["replay"]["Case"]["prop"].as_str().unwrap_or(""), doc["replay"]["Case"]["batch"].as_str().unwrap_or(""), &doc["replay"]["Case"]["run_seed"].to_string(), &doc["replay"]["Case"]["case"].to_string()])
             .stdout(Stdio::null())
             .stderr(Stdio::null())
-            .status();
-        return match st {
-            Ok(s) if !s.success() && s.code().map(|c| c != 1 && c != 0).unwrap_or(true) => {
-                println!("REPLAY reproduced class=process-abort ({s})");
-                1
-            }
-            Ok(s) => {
-                println!("REPLAY not reproduced: case exited with {s}");
-                0
-            }
+            .spawn();
+        let mut child = match child {
+            Ok(c) => c,
             Err(e) => {
                 println!("REPLAY error: {e}");
-                2
+                return 2;
             }
         };
+        let limit = std::time::Duration::from_secs(
+            std::env::var("VERIF_STALL_SECS").ok().and_then(|s| s.parse().ok()).unwrap_or(240),
+        );
+        let t0 = Instant::now();
+        loop {
+            match child.try_wait() {
+                Ok(Some(s)) => {
+                    return if want == "process-abort" && !s.success() && s.code().map(|c| c != 1 && c != 0).unwrap_or(true) {
+                        println!("REPLAY reproduced class=process-abort ({s})");
+                        1
+                    } else {
+                        println!("REPLAY not reproduced: case exited with {s}");
+                        0
+                    };
+                }
+                Ok(None) => {
+                    if t0.elapsed() > limit {
+                        let _ = child.kill();
+                        let _ = child.wait();
+                        return if want == "hang" {
+                            println!("REPLAY reproduced class=hang (no result after {}s)", limit.as_secs());
+                            1
+                        } else {
+                            println!("REPLAY not reproduced: case hangs instead of dying");
+                            0
+                        };
+                    }
+                    std::thread::sleep(std::time::Duration::from_millis(50));
+                }
+                Err(e) => {
+                    println!("REPLAY error: {e}");
+                    return 2;
+                }
+            }
+        }
     }
     match (fam.replay)(&doc["replay"]) {
         Ok(Some(f)) => {
